@@ -647,7 +647,7 @@ func c20Waiting(dump string) string {
 	return strings.Join(out, "\n")
 }
 
-// c20ConnectStorm: start, let clients connect in a storm, Close(), over and over: a connection that was accepted at the
+// c20ConnectStorm: start, let clients connect in a storm (next to clients that are busy with round trips), Close(), over and over: a connection that was accepted at the
 // very moment of the termination and got as far as being served must be dead afterwards like every other one, and
 // Close() must return.
 func c20ConnectStorm(r *verdict.Run, cycles int) {
@@ -732,7 +732,7 @@ func c20ConnectStorm(r *verdict.Run, cycles int) {
 	inproc, made := 0, int64(0)
 	// (three storms at a time on three emulators of the process: connections of one are torn down while the others
 	// accept and terminate - the client table and the statistics are shared by all emulators of a process)
-	for cycle := 0; cycle < cycles && c.Alive(); cycle += 3 {
+	for cycle := 0; cycle < 8*cycles && c.Alive(); cycle += 3 {
 		type res struct {
 			out string
 			err error
@@ -748,7 +748,7 @@ func c20ConnectStorm(r *verdict.Run, cycles int) {
 			go func(k, port int) {
 				defer wg.Done()
 				time.Sleep(time.Duration(k*(1+cycle%4)) * time.Millisecond)
-				results[k].out, results[k].err = c.Do(30*time.Second, "stormclose %d %d %d", port, 8, 2000+((cycle+k)%5)*1000)
+				results[k].out, results[k].err = c.Do(30*time.Second, "stormclose %d %d %d %d", port, 8, 2000+((cycle+k)%5)*1000, []int{32, 48, 64}[(cycle/3+k)%3])
 			}(k, port)
 		}
 		wg.Wait()
